@@ -139,6 +139,18 @@ var pinned = []pin{
 	{name: "derived-ctor-return-in-try-finally",
 		a:      `function b() { } new (class extends b { constructor() { super(); try { let g = () => eval(""); return; } finally { } } })(0); log("ok");`,
 		expect: "L s:2:ok\nRET u"},
+	{name: "unreachable-after-jump-completion", // seeded C02-completion-unreachable-after-break (R7 after-jump)
+		a: `1; M: { break M; } 2; do { 3; break; } while (false); log(eval("4; N: { break N; }"), eval("for (var i = 0; i < 2; i++) { 5; continue; }"));`,
+		b: `1; M: { break M; 5; } 2; do { 3; break; 6; log("dead"); } while (false); log(eval("4; N: { break N; 7; }"), eval("for (var i = 0; i < 2; i++) { 5; continue; 8; }"));`},
+	{name: "unreachable-after-jump-completion-value",
+		a:      `1; M: { break M; 5; }`,
+		expect: "RET d:3ff0000000000000"},
+	{name: "template-site-identity", // seeded C02-template-site-identity
+		a:      "var t = function(s) { return s; }; function k() { return t`a${1}b`; } var q = []; for (let i = 0; i < 2; i++) { q[i] = t`x`; } log(k() === k(), q[0] === q[1], t`a` === t`a`, k(), k(), q[0], q[1]);",
+		expect: "L b:true b:true b:false o#1 o#1 o#2 o#2\nRET u"},
+	{name: "template-object-map-key", // known finding: keyed collections see a fresh object per evaluation of one site (=== / indexOf / Object.is are covered by template-site-identity above)
+		a:      "var t = function(s) { return s; }; function k() { return t`a`; } var m = new Map(); m.set(k(), 1); var w = new WeakMap(); w.set(k(), 2); var ws = new WeakSet(); ws.add(k()); log(m.get(k()), new Set([k(), k()]).size, w.get(k()), ws.has(k()));",
+		expect: "L d:3ff0000000000000 d:3ff0000000000000 d:4000000000000000 b:true\nRET u"},
 	{name: "unresolvable-callee-order",
 		a:      `function g() { log("g"); } try { nof(g()); } catch (e) { log(e); }`,
 		expect: "L E:ReferenceError\nRET u"},
